@@ -88,6 +88,20 @@ class CleanBase(Prop):
                     calls.append(G.op_match_doc("stand", 0, t, b"sv"))
                 seqs.append(calls + [G.op_end(t)])
             run += G.interleave(r, seqs)
+        if r.chance(1, 3):
+            # a second addressed multi-entry file (Config with Filename) whose stale entry has the id of a live
+            # entry of the first file (a test that moved between files)
+            t0 = tests[0]
+            second = [(b"%s - 1" % t0, b"moved-away value"), (b"TestSecond - 1", b"s1")]
+            if r.chance(1, 2):
+                second.reverse()
+            setup.append(G.op_putfile(b"def/aaa_second.snap" if r.chance(1, 2) else b"def/zzz_second.snap", b"".join(frame(i, b) for i, b in second)))
+            fn = setup[-1]["path"]
+            cfg = G.op_newconfig(dir=b"def", fn=unhx(fn).split(b"/")[-1][:-5])
+            extra = []
+            for _ in range(count):
+                extra += [G.op_match_snap(1, b"TestSecond", [b"s1"]), G.op_end(b"TestSecond")]
+            run = [cfg] + run + extra
         info = {"tests": tests, "ncalls": ncalls, "count": count, "entries": entries}
         return setup, run, info
 
@@ -140,14 +154,19 @@ class C09(CleanBase):
         sort_ = next((kv["sort"] == "1" for name, kv in ops if name == "clean"), False)
         deletes = (not ci_) and upd_ in ("true", "clean")
         main = hx(b"/S/def/zz_verif_trace_test.snap")
-        # what the run actually addressed (robust against shrinking): per test, calls per execution
+        # what the run actually addressed (robust against shrinking): per (file, test), calls per execution
         calls, execs, stand = {}, {}, {}
-        cleaned = False
+        cfgs = []
         for name, kv in ops:
             if name == "clean":
                 break
+            if name == "newconfig":
+                cfgs.append(kv)
             if name == "match" and kv["api"] == "snap" and kv.get("pre", "").startswith("ok:"):
-                calls[kv["test"]] = calls.get(kv["test"], 0) + 1
+                h = int(kv["h"])
+                cfg = cfgs[h - 1] if 0 < h <= len(cfgs) else {"fn": "~", "dir": "~", "ext": "~"}
+                path = G.expected_multi_path(cfg, "snap", kv["test"]).encode("latin-1")
+                calls[(path, kv["test"])] = calls.get((path, kv["test"]), 0) + 1
             if name == "match" and kv["api"] == "stand":
                 stand[kv["test"]] = stand.get(kv["test"], 0) + 1
             if name == "endtest":
@@ -155,65 +174,60 @@ class C09(CleanBase):
         cnt = next((int(kv["count"]) for name, kv in ops if name == "clean"), 1)
         if not calls and not stand:
             return []      # no directory was visited: nothing is claimed
-        if any(execs.get(t, 0) != cnt for t in list(calls) + list(stand)) or any(n_ % cnt for n_ in list(calls.values()) + list(stand.values())):
+        if any(execs.get(t, 0) != cnt for (_, t) in list(calls)) or any(execs.get(t, 0) != cnt for t in stand) \
+                or any(n_ % cnt for n_ in list(calls.values()) + list(stand.values())):
             return []      # not `count` uniform executions (shrunk case)
-        live = set()
-        for t, n_ in calls.items():
+        addressed = {}
+        for (path, t), n_ in calls.items():
             for k in range(1, n_ // cnt + 1):
-                live.add(unhx(t) + b" - %d" % k)
-        main_addressed = bool(calls)
-        ent_before = parse_entries(unhx(before.get(main, "-")))
-        stale = [i for i, _ in ent_before if i not in live and i.startswith(b"Test")] if main_addressed else []
+                addressed.setdefault(path, set()).add(unhx(t) + b" - %d" % k)
         otests = [] if c["otests"] == "~" else [unhx(x) for x in c["otests"].split(",")]
         ofiles = [] if c["ofiles"] == "~" else [unhx(x) for x in c["ofiles"].split(",")]
-        # every stale entry of the addressed file is reported, nothing else
-        if sorted(otests) != sorted(stale):
-            fails.append({"msg": "obsolete tests reported %s, stale entries are %s" % (sorted(otests), sorted(stale))})
+        exp_tests, ent_b, ent_a = [], {}, {}
+        for path, live in addressed.items():
+            ent_b[path] = parse_entries(unhx(before.get(hx(path), "-")))
+            ent_a[path] = parse_entries(unhx(after.get(hx(path), "-")))
+            exp_tests += [i for i, _ in ent_b[path] if i not in live and i.startswith(b"Test")]
+        # every stale entry of an addressed file is reported, nothing else
+        if sorted(otests) != sorted(exp_tests):
+            fails.append({"msg": "obsolete tests reported %s, stale entries are %s" % (sorted(otests), sorted(exp_tests))})
         # unaddressed files with .snap in their name directly inside the visited directory
-        registered_standalone = set()
-        for (name, kv), r_ in zip([o for o in ops if o[0] == "match"], [r for r in results if r[0] == "obs" and r[2]["outcome"] != "nocall"]):
-            pass
         exp_files = []
         for p in before:
             path = unhx(p)
             d, nme = path.rsplit(b"/", 1)
-            if d == b"/S/def" and b".snap" in nme and (p != main or not main_addressed):
-                # standalone files addressed in this run are named <Test>_<k>.snap
-                addressed = any(nme == unhx(t).replace(b"/", b"_") + b"_%d.snap" % k for t, n_ in stand.items() for k in range(1, n_ // cnt + 1))
-                if not addressed:
+            if d == b"/S/def" and b".snap" in nme and path not in addressed:
+                st = any(nme == unhx(t).replace(b"/", b"_") + b"_%d.snap" % k for t, n_ in stand.items() for k in range(1, n_ // cnt + 1))
+                if not st:
                     exp_files.append(path)
         if sorted(ofiles) != sorted(exp_files):
             fails.append({"msg": "obsolete files reported %s, expected %s" % (sorted(ofiles), sorted(exp_files))})
         # removal
-        ent_after = parse_entries(unhx(after.get(main, "-")))
-        if not main_addressed:
-            ent_before = ent_after = []
         if deletes:
             for f in exp_files:
                 if hx(f) in after:
                     fails.append({"msg": "clean mode: obsolete file %r not removed" % f})
-            if sorted(i for i, _ in ent_after) != sorted(i for i, _ in ent_before if i not in stale):
-                fails.append({"msg": "clean mode: entries after %s" % [i for i, _ in ent_after]})
         else:
             for p in before:
                 if p not in after:
                     fails.append({"msg": "report-only mode removed file %r" % unhx(p)})
-            if sorted(ent_after) != sorted(ent_before):
-                fails.append({"msg": "report-only mode changed the entries of the addressed file (sorting may only reorder): before %s after %s"
-                              % ([i for i, _ in ent_before], [i for i, _ in ent_after])})
-            if not (sort_ and not ci_) and after.get(main) != before.get(main):
-                fails.append({"msg": "file rewritten although neither deletion nor sorting was allowed"})
+        for path, live in addressed.items():
+            stale = [i for i, _ in ent_b[path] if i not in live and i.startswith(b"Test")]
+            if deletes:
+                if sorted(ent_a[path]) != sorted((i, b) for i, b in ent_b[path] if i not in stale):
+                    fails.append({"msg": "clean mode: entries of %r after: %s" % (path, [i for i, _ in ent_a[path]])})
+            else:
+                if sorted(ent_a[path]) != sorted(ent_b[path]):
+                    fails.append({"msg": "report-only mode changed the entries of %r (sorting may only reorder): before %s after %s"
+                                  % (path, [i for i, _ in ent_b[path]], [i for i, _ in ent_a[path]])})
+                if not (sort_ and not ci_) and after.get(hx(path)) != before.get(hx(path)):
+                    fails.append({"msg": "file rewritten although neither deletion nor sorting was allowed"})
         # untouched: files without .snap, sub-directories, unvisited directories
         for p in before:
             path = unhx(p)
             d, nme = path.rsplit(b"/", 1)
             if (d != b"/S/def" or b".snap" not in nme) and after.get(p) != before[p]:
                 fails.append({"msg": "file outside Clean's remit touched: %r" % path})
-        # surviving entries keep their bodies
-        bb = dict(ent_before)
-        for i, b in ent_after:
-            if bb.get(i) != b:
-                fails.append({"msg": "entry %r changed its body" % i})
         # summary says removed iff deleting
         if (c["otests"] != "~" or c["ofiles"] != "~") and (c["removed"] == "1") != deletes:
             fails.append({"msg": "summary wording removed=%s but deletes=%s" % (c["removed"], deletes)})
